@@ -20,7 +20,14 @@
 (*           weakref.finalize drains whatever the queue object still holds).                        *)
 (*           Named deviation actions (constant Deviations) reproduce seeded mutants / repaired      *)
 (*           defects so that every Rules clause is shown non-vacuous at design level; constant      *)
-(*           Repairs = {"WakeOnClose"} models the repair proposed for D8.                           *)
+(*           Repairs = {"WakeOnClose"} models a *candidate* repair of D8 (close() feeds the orphaned *)
+(*           queue a sentinel that parked checkouts hand on): TLC shows it sufficient for two        *)
+(*           request threads and insufficient for three (MC plans in vh/c02.py).                     *)
+(*                                                                                                  *)
+(*  As-is deviation kept in the model: D8 - a checkout parked on the queue object that close()      *)
+(*  orphans is never woken (G3 stays disabled).  EventuallyQuiescent therefore fails exactly on     *)
+(*  block=True pools with a closer; QuiescentOrD8 / Inv_HangOnlyD8 state that this history class    *)
+(*  (OrphanWaiters) is the ONLY way not to become quiescent.                                         *)
 EXTENDS Naturals, Sequences, FiniteSets, TLC
 
 CONSTANTS NThreads,    \* request threads are 1..NThreads
@@ -93,7 +100,6 @@ VARIABLES ptr,      \* "open" | "closed": self.pool is the queue / None
           hist      \* sequence of <<proc, kind>>: the critical-event ordering (emission only)
 
 vars == <<ptr, queue, open, wire, holds, lastio, outs, got, cur, dropped, loc, fresh, script, res, hist>>
-NoHist == <<ptr, queue, open, wire, holds, lastio, outs, got, cur, dropped, loc, fresh>>
 
 Dev(d) == d \in Deviations
 L0 == [pc |-> "idle", conn |-> NONE, lq |-> "none", left |-> Reqs, fails |-> 0, clean |-> FALSE,
